@@ -85,6 +85,8 @@ pub struct Exec {
     pub records: Vec<Vec<u8>>,
     /// memory-safety style problems detected by the environment (canaries, writes outside the area)
     pub problems: Vec<String>,
+    /// virtio only: for every byte of the writable area in chain order: (gpa, changed from background, dirty)
+    pub area: Vec<(u64, bool, bool)>,
 }
 
 fn panic_msg(e: Box<dyn std::any::Any + Send>) -> String {
@@ -104,7 +106,7 @@ pub static IN_SUBJECT: std::sync::atomic::AtomicBool = std::sync::atomic::Atomic
 pub fn quiet_panics() {
     let default = std::panic::take_hook();
     std::panic::set_hook(Box::new(move |info| {
-        if !IN_SUBJECT.load(std::sync::atomic::Ordering::Relaxed) {
+        if !IN_SUBJECT.load(std::sync::atomic::Ordering::Relaxed) || std::env::var_os("FBRV_LOUD").is_some() {
             default(info);
         }
     }));
@@ -195,7 +197,7 @@ impl FuseDev {
             Ok(r) => (r, None),
             Err(e) => (Err("panic".into()), Some(panic_msg(e))),
         };
-        Exec { ret, panic, records: self.drain(), problems: Vec::new() }
+        Exec { ret, panic, records: self.drain(), problems: Vec::new(), area: Vec::new() }
     }
 
     /// Separate request and reply buffers with canaries around both; reply capacity `cap`.
@@ -227,7 +229,7 @@ impl FuseDev {
         if wb[..PAD].iter().chain(wb[PAD + cap..].iter()).any(|b| *b != CANARY) {
             problems.push("canary around reply buffer damaged".to_string());
         }
-        Exec { ret, panic, records: self.drain(), problems }
+        Exec { ret, panic, records: self.drain(), problems, area: Vec::new() }
     }
 }
 
@@ -252,6 +254,8 @@ pub struct Virtio {
     pub page: usize,
     pub a_size: usize,
     pub b_size: usize,
+    /// use the complemented background pattern (to tell "written with the same value" apart)
+    pub flip: std::cell::Cell<bool>,
 }
 
 fn bg(addr: u64) -> u8 {
@@ -269,7 +273,11 @@ impl Virtio {
         };
         let regions = vec![mk(Q_BASE, Q_SIZE, 4096), mk(A_BASE, a_size, page), mk(B_BASE, b_size, page)];
         let mem = GM::from_regions(regions).expect("guest memory");
-        Virtio { mem, page, a_size, b_size }
+        Virtio { mem, page, a_size, b_size, flip: std::cell::Cell::new(false) }
+    }
+
+    pub fn bg_byte(addr: u64) -> u8 {
+        bg(addr)
     }
 
     pub fn region_of(&self, addr: u64) -> Option<(u64, usize)> {
@@ -290,7 +298,8 @@ impl Virtio {
     }
 
     pub fn fill_bg(&self, addr: u64, len: usize) {
-        let v: Vec<u8> = (0..len as u64).map(|i| bg(addr + i)).collect();
+        let f = if self.flip.get() { 0xffu8 } else { 0 };
+        let v: Vec<u8> = (0..len as u64).map(|i| bg(addr + i) ^ f).collect();
         self.mem.write_slice(&v, GuestAddress(addr)).unwrap();
     }
 
@@ -331,7 +340,7 @@ impl Virtio {
 
     /// Fresh queue structures at the bottom of guest memory.
     pub fn queue(&self) -> MockSplitQueue<'_, GM> {
-        self.mem.write_slice(&vec![0u8; 4096], GuestAddress(Q_BASE)).unwrap();
+        self.mem.write_slice(&[0u8; 512], GuestAddress(Q_BASE)).unwrap();
         MockSplitQueue::new(&self.mem, 16)
     }
 
@@ -397,14 +406,20 @@ impl Virtio {
                     break;
                 }
                 if self.is_dirty(a) {
-                    problems.push(format!("page outside the writable descriptors marked dirty at gpa {:#x}", a));
-                    break;
+                    // with pages larger than a byte, a page shared with a writable descriptor is legitimately dirty
+                    let pg = a / self.page as u64 * self.page as u64;
+                    if !(0..self.page as u64).any(|i| in_wr(pg + i)) {
+                        problems.push(format!("page outside the writable descriptors marked dirty at gpa {:#x}", a));
+                        break;
+                    }
                 }
             }
         }
         // written extent of the writable area, in chain order
         let mut flat_changed: Vec<bool> = Vec::new();
         let mut flat: Vec<u8> = Vec::new();
+        let mut area: Vec<(u64, bool, bool)> = Vec::new();
+        let f = if self.flip.get() { 0xffu8 } else { 0 };
         for s in wr {
             if self.region_of(s.addr).is_none() {
                 continue;
@@ -412,8 +427,9 @@ impl Virtio {
             let now = self.read(s.addr, s.len as usize);
             for (i, b) in now.iter().enumerate() {
                 let a = s.addr + i as u64;
-                flat_changed.push(*b != bg(a) || (self.page == 1 && self.is_dirty(a)));
+                flat_changed.push(*b != (bg(a) ^ if self.flip.get() { 0xff } else { 0 }) || (self.page == 1 && self.is_dirty(a)));
                 flat.push(*b);
+                area.push((a, *b != (bg(a) ^ f), self.is_dirty(a)));
             }
         }
         let extent = flat_changed.iter().rposition(|c| *c).map(|p| p + 1).unwrap_or(0);
@@ -421,7 +437,7 @@ impl Virtio {
         if extent > 0 {
             records.push(flat[..extent].to_vec());
         }
-        Exec { ret, panic, records, problems }
+        Exec { ret, panic, records, problems, area }
     }
 }
 
